@@ -12,7 +12,8 @@ US = E.US
 RULE = ("env: episodes constructed so that a leveraged long (w in 1.5..5) or short position in a spot or margined contract is ruined at a chosen "
         "step j (first step or later) and PHASE: by a quote inside the latency window before the decision ('latent', the decision arrives broke) or "
         "by the step's own market events after the decision ('nonlatent'); the ruin either overshoots zero by >= 2% or, in dyadic scenarios "
-        "(w in {2,4,-1,-2,-4}, prices powers of two), hits NLV == 0 exactly; prices may recover afterwards; any reward function; then a generated "
+        "(w in {2,4,-1,-2,-4}, prices powers of two), hits NLV == 0 exactly; prices may recover afterwards; any reward function; the observation is produced by a recording state or (one weights-space case in three) by the "
+        "library's own FeaturePortfolioWeight + FeaturePrices; then a generated "
         "sequence of {step, step, reset+episode}. Oracle: (a) every track-record entry has pre-trade NLV > 0 and a decision arriving with ledger "
         "NLV <= 0 changes no position and adds no entry; (b) valuation raises EndOfEpisodeError iff ledger NLV <= 0, and returns it when asked not to "
         "raise; (c) the step in which the ledger NLV first becomes <= 0 RETURNS a 4-tuple with done=True; (d) every later step raises "
@@ -58,7 +59,9 @@ def cases(draw, tier="quick"):
             "phase": phase, "ruin_step": j, "tail": tail, "gap": gap, "latency_us": lat,
             "recover": draw(st.booleans()), "reward": draw(st.sampled_from(REWARDS)),
             "after": draw(st.lists(st.sampled_from(["step", "step", "reset"]), min_size=1, max_size=4)),
-            "hedge": draw(st.booleans()), "delay": 0, "as_contracts": draw(st.sampled_from([False, False, True]))}
+            "hedge": draw(st.booleans()), "delay": 0, "as_contracts": draw(st.sampled_from([False, False, True])),
+            # the observation is made of the library's own features (held weights, prices) instead of the recorder
+            "library_state": draw(st.sampled_from([False, False, True]))}
 
 
 def ruin_price(c):
@@ -106,9 +109,13 @@ def to_env_case(c):
         q = c["w"] * 1024.0 / (c["p0"] * c["mult"] if c["kind"] in ("uspot", "umargin") else c["p0"] * {"etf": 1.0, "es": 50.0}[c["kind"]])
         actions = [[q] + [8.0] * (n - 1) for _ in range(npts - 1)]
         space = ["box", -1e9, 1e9, False]
-    return {"gaps": gaps, "contracts": specs, "bars": bars, "extras": extras, "rates": [], "pings": [],
-            "latency_us": c["latency_us"], "delay": 0, "actions": actions, "reward": c["reward"], "fees": [0.0, 0.0],
-            "markup": 0.0, "deposit": 1024.0, "space": space}
+    out = {"gaps": gaps, "contracts": specs, "bars": bars, "extras": extras, "rates": [], "pings": [],
+           "latency_us": c["latency_us"], "delay": 0, "actions": actions, "reward": c["reward"], "fees": [0.0, 0.0],
+           "markup": 0.0, "deposit": 1024.0, "space": space}
+    if c.get("library_state") and not c.get("as_contracts"):
+        # (weights space only: the weight feature declares a range of weights)
+        out["state"] = ["library", 4 * space[1], 4 * space[2], False]     # (transformers left unfitted: no backtest at construction)
+    return out
 
 
 def run_env(c):
@@ -239,6 +246,8 @@ def E_index(b, contract):
 
 def finish(res, c, ruined_at, trades_before):
     res.nontrivial = ruined_at is not None and ruined_at >= 1 and trades_before >= 1
+    if c.get("library_state") and not c.get("as_contracts"):
+        res.tag("state-made-of-library-features")
     res.tag("phase-" + c["phase"], "dyadic-exact-zero" if c["dyadic"] else "overshoot", "long" if c["w"] > 0 else "short",
             "margined" if c["kind"] in ("umargin", "es") else "spot", "reward-" + c["reward"][0],
             "targets-in-contracts" if c.get("as_contracts") else "targets-in-weights")
